@@ -29,6 +29,11 @@ def natLabels (d : List Q) : Except String (List Nat) :=
   d.mapM fun q => match qToNat? q with
     | some n => .ok n | none => .error "non-natural label"
 
+/-- `torch.argmax(input, dim=1)` on a 2-D tensor without columns raises `IndexError` ("Expected reduction dim 1 to
+    have non-zero size"); inside the TorchScript-compiled F1 update it surfaces as `RuntimeError`. -/
+def argmaxGuard (input : T) (e : Err) : Except Err Unit :=
+  if input.ndim == 2 && input.shape[1]? == some 0 then throw e else pure ()
+
 /-- predictions for the multiclass family: labels (1-D) or arg-max of logits (2-D). -/
 def mcPreds (input : T) : Except String (List Nat) :=
   if input.ndim = 2 then .ok (input.rows.map argmaxFirst) else natLabels input.data
@@ -75,6 +80,7 @@ def famMulticlassAccuracy (cfg : Args) : Except String Fam := do
       -- typed family (TE/Model/Fams.lean): `k = 1` on predictions, `k > 1` on the logit rows
       -- (torch.gather raises for a label outside the logit row)
       if k == 1 then do
+        argmaxGuard i .index
         let p ← liftP (mcPreds i)
         Fams.mcAccuracyStat avg C (p, labs)
       else Fams.mcAccuracyTopkStat avg C k (i.shape[1]?.getD 0) (i.rows, labs)
@@ -159,6 +165,7 @@ def famMulticlassPRF (kind : PRFKind) (cfg : Args) : Except String Fam := do
       let (i, t) ← io a
       if !mcShapeOk i t nc then throw .value
       let labs ← liftP (natLabels t.data)
+      argmaxGuard i (match kind with | .f1 => .runtime | _ => .index)
       let p ← liftP (mcPreds i)
       match kind with
       | .precision => Fams.mcPrecisionStat avg C (p, labs)
